@@ -25,21 +25,21 @@ LOC_DIR_REF = {"Top": "Up", "TopEdge": "Up", "Right": "Right", "RightEdge": "Rig
 
 
 def run(prog, chk):
-    hygiene(prog, chk)
-    routes(prog, chk)
-    axis_lines(prog, chk)
-    wiring(prog, chk)
-    location_choice(prog, chk)
-    all_candidates_measured(prog, chk)
-    connection_type_verbatim(prog, chk)
-    chosen_only_when_not_given(prog, chk)
+    chk.rule(hygiene, prog, chk)
+    chk.rule(routes, prog, chk)
+    chk.rule(axis_lines, prog, chk)
+    chk.rule(wiring, prog, chk)
+    chk.rule(location_choice, prog, chk)
+    chk.rule(all_candidates_measured, prog, chk)
+    chk.rule(connection_type_verbatim, prog, chk)
+    chk.rule(chosen_only_when_not_given, prog, chk)
     from props import C08
-    C08.use_translation(prog, chk)  # an end point on a <use> with only x (or only y) is on the translated copy
-    candidate_table(prog, chk)
+    chk.rule(C08.use_translation, prog, chk)  # an end point on a <use> with only x (or only y) is on the translated copy
+    chk.rule(candidate_table, prog, chk)
     from props import geomalg
-    geomalg.check_sites(prog, chk, "C13")
-    geomalg.check_float_truncation(prog, chk)  # no float is cut down to an integer on the way (a truncated distance / coordinate makes different candidates tie)
-    geomalg.check(prog, chk, "C13", floor=30)
+    chk.rule(geomalg.check_sites, prog, chk, "C13")
+    chk.rule(geomalg.check_float_truncation, prog, chk)  # no float is cut down to an integer on the way (a truncated distance / coordinate makes different candidates tie)
+    chk.rule(geomalg.check, prog, chk, "C13", floor=30)
 
 
 def _lit(body, t, i):
